@@ -635,6 +635,32 @@ def sym_arctan2(y, x):
     raise SymEscape("arctan2 of symbolic values")
 
 
+def declare_arccos(cos_poly, angle_poly):
+    """harness-level cancellation rule: arccos(cos_poly) = angle_poly (the harness guarantees angle in [0, pi])"""
+    num.ctx().__dict__.setdefault("_arccos_rules", {})[cos_poly.key()] = angle_poly
+
+
+def declare_angle(value_poly, angle_poly):
+    """harness-level cancellation rule: np.angle(value_poly) = angle_poly (the harness guarantees
+    value = rho * exp(i*angle) with rho > 0 and angle in (-pi, pi])"""
+    num.ctx().__dict__.setdefault("_angle_rules", {})[value_poly.key()] = angle_poly
+
+
+def sym_angle(x):
+    """np.angle of a symbolic complex number: constants exactly, otherwise only through a declared rule"""
+    p = x.p
+    if not p.t:
+        return 0.0
+    rule = num.ctx().__dict__.get("_angle_rules", {}).get(p.key())
+    if rule is not None:
+        return Sym(rule)
+    cv = p.const_value()
+    if cv is not None:
+        import cmath
+        return cmath.phase(cv)
+    raise SymEscape("np.angle of a symbolic value without a cancellation rule")
+
+
 # ---------------------------------------------------------------- the explorer
 def explore(fn, policy=None, max_paths=256, on_path=None):
     """Run fn() once per feasible path. fn receives nothing; it uses the module-level
